@@ -239,6 +239,16 @@ def run(F, R, tier):
             nm_ok = True
             R.ob("C01-b", "the redirect response carries the request's %s" % fld, ok and nm_ok, "Redirect { %s: %s }" % (fld, expr_text(f.get(fld, {}))[:40]), where(l))
 
+    # ... and its dynamic flag is the very value the loader was told for this request (sibling agreement)
+    for b in tl_:
+        told = {peel_value(x["e"]).get("lid") for n in b["_nodes"] if n["k"] == "Struct" and (n.get("adt") or "").endswith("source::LoadOptions") for x in n["fields"] if x["name"] == "in_dynamic_branch"} - {None}
+        for l in [n for n in b["_nodes"] if n["k"] == "Struct" and (n.get("variant") or "").endswith("PendingInfoResponse::Redirect")]:
+            f = {x["name"]: peel_value(x["e"]) for x in l["fields"]}
+            if told and "is_dynamic" in f:
+                R.ob("C01-b", "the redirect response's dynamic flag is the one the loader was given for this request", f["is_dynamic"].get("lid") in told,
+                     "Redirect { is_dynamic: %s } is not the value passed to the loader as `in_dynamic_branch`: the re-issued load of the redirect target leaves the dynamic branch (a JSON module imported dynamically through a redirect becomes an unsupported-media-type error)" % expr_text(f["is_dynamic"])[:40],
+                     where(l), key="C01|C01-b|redirect-dynamic-flag")
+
     # root-ness travels with the final specifier: resolved_roots gains exactly the specifiers
     # that roots resolved / redirected to
     rr = [n for n in F.all_nodes() if n.get("k") == "MethodCall" and n["name"] == "insert" and field_of(n["recv"]) == "resolved_roots" and not n["_top"].get("derived")]
